@@ -17,7 +17,8 @@ PY_ROWS = {"tdint_v", "tdstr_in", "int_v", "long_v", "double_v", "bool_v", "enum
            # list-mode arrays and vectors, structs as classes (PY_array_arg: list, PY_struct_arg: class)
            "arr_in", "arr_n", "arr_out", "out_n", "vec_in", "vec_out_alloc", "pt_v", "pt_pinout", "pt_cref",
            "arrx_out", "dim_n", "dim_m"}
-PY_RESULTS = {"tdint", "void", "int", "double", "bool", "enum", "cstr", "str_cref", "pt"}
+PY_ROWS |= set(K.KIND_ROWS)
+PY_RESULTS = set(K.KIND_RESULTS) | {"tdint", "void", "int", "double", "bool", "enum", "cstr", "str_cref", "pt"}
 PT_Y = {"pt_v": 1.5, "pt_pinout": 2.5, "pt_cref": -0.5}
 SIZES = [4, 0, 1, 3]
 
